@@ -46,7 +46,7 @@ TInit ==
   /\ TLCSet(1, {})
 
 MXOf(r) == [stls |-> r.stls, cert |-> r.cert, stsMatch |-> r.stsMatch, tlsa |-> r.tlsa, slow |-> r.slow,
-            cn |-> r.cn, tlsaC |-> r.tlsaC]
+            cn |-> r.cn, tlsaC |-> r.tlsaC, quit |-> r.quit]
 
 TReset ==
   /\ IsEv("Cfg")
@@ -60,7 +60,7 @@ TReset ==
   /\ l' = l + 1 /\ drift' = FALSE /\ driftAt' = 0 /\ tno' = Ev.t /\ kviol' = {}
 
 MsgOf(e) == [reqtls |-> e.reqtls, tlsno |-> e.tlsno, quar |-> e.quar,
-             mailfail |-> e.mailfail, qlate |-> e.qlate, na |-> e.na]
+             mailfail |-> e.mailfail, qlate |-> e.qlate, na |-> e.na, pre |-> e.pre]
 
 C_Msg  == IsEv("Msg") /\ StartMsg(MsgOf(Ev))
 C_Look == IsEv("Lookup") /\ Lookup(Ev.mx, Ev.cross)
@@ -79,7 +79,7 @@ C_Step ==
   /\ ~drift
   /\ \/ /\ Consume
         /\ l' = l + 1
-        /\ kviol' = IF conn.taint # {} THEN kviol \cup (obs'.viol \ obs.viol) ELSE kviol
+        /\ kviol' = IF conn.taint # {} \/ (obs.msg.reqtls /\ ~cur.reqtls) THEN kviol \cup (obs'.viol \ obs.viol) ELSE kviol
         /\ IF Ev.e = "End" THEN Publish(FALSE, 0, obs', kviol', devs') ELSE TRUE
      \/ Silent /\ UNCHANGED <<l, kviol>>
   /\ UNCHANGED <<drift, driftAt, tno>>
